@@ -21,7 +21,12 @@ from frequenz.client.microgrid import Connection
 from frequenz.quantities import Quantity
 from frequenz.sdk._internal._channels import ChannelRegistry
 from frequenz.sdk.timeseries import Sample
-from frequenz.sdk.timeseries.formula_engine._formula_generators import FormulaGeneratorConfig, PVPowerFormula
+from frequenz.sdk.timeseries.formula_engine._formula_generators import (
+    BatteryPowerFormula,
+    EVChargerPowerFormula,
+    FormulaGeneratorConfig,
+    PVPowerFormula,
+)
 
 from .. import fakes, world
 from ..core import Verdict
@@ -31,8 +36,9 @@ BUDGET = {"quick": 2500, "thorough": 8000}
 SIZE_BOUNDS = {"quick": "1-2 terms with 1-2 fallback inverters each, 6-25 ticks", "thorough": "1-2 terms, 6-60 ticks"}
 RULE = {
     "C19": (
-        "Hypothesis-generated scripts for a real PV power formula with fallback: graph grid -> meter -> 1-2 PV meters (primary "
-        "of a term) -> 1-2 PV inverters each (fallbacks); per tick every primary and every inverter is valid or missing; the "
+        "Hypothesis-generated scripts for a real generated power formula with fallback (PV or battery family; the EV-charger formula has no fallback terms): graph "
+        "grid -> meter -> 1-2 dedicated meters (primary of a term) -> 1-2 PV inverters / battery inverters with a battery "
+        "each (fallbacks); per tick every primary and every inverter is valid or missing; the "
         "fallback samples of a tick are delivered before or after the primary sample or up to 2 ticks late; optionally one "
         "primary stream is closed at a tick. The harness serves every ComponentMetricRequest (also those of the lazily started "
         "fallback formulas) from the tick after it is made. Primary of term j carries (k+1)*10^(5j), inverter i carries that "
@@ -49,7 +55,7 @@ ASSUMPTIONS = [
     "primary samples are delivered on time (only fallback delivery lags)",
     "when neither source of a term is valid at a tick nothing is demanded of that tick's value",
 ]
-MIN_LABELS = {"C19": {"fail_recover_fail": 0.1, "fallback_lag": 0.3, "primary_closed": 0.1, "two_terms": 0.3}}
+MIN_LABELS = {"C19": {"fail_recover_fail": 0.1, "fallback_lag": 0.3, "primary_closed": 0.1, "two_terms": 0.3, "family_battery": 0.1}}
 
 
 @st.composite
@@ -66,6 +72,7 @@ def _case(draw: Any, max_ticks: int) -> dict[str, Any]:
     if draw(st.integers(0, 3)) == 0:
         close = [draw(st.integers(0, nterms - 1)), draw(st.integers(1, nticks - 1))]
     return {
+        "family": draw(st.sampled_from(["pv", "pv", "battery"])),
         "ninv": ninv,
         "script": script,
         "lag": [draw(st.sampled_from([0, 0, 1, 2])) for _ in range(nterms)],
@@ -106,19 +113,33 @@ def run_case(case: Any, pid: str) -> Verdict:
     async def scenario() -> None:
         comps = {fakes.grid(1), fakes.meter(2)}
         conns = {Connection(1, 2)}
+        family = case.get("family", "pv")
+        device_ids: set[int] = set()
         for j in range(nterms):
             comps.add(fakes.meter(meter_id[j]))
             conns.add(Connection(2, meter_id[j]))
             for cid in inv_id[j]:
-                comps.add(fakes.pv_inverter(cid))
                 conns.add(Connection(meter_id[j], cid))
+                if family == "pv":
+                    comps.add(fakes.pv_inverter(cid))
+                    device_ids.add(cid)
+                elif family == "ev":
+                    comps.add(fakes.ev_charger(cid))
+                    device_ids.add(cid)
+                else:
+                    comps.add(fakes.bat_inverter(cid))
+                    comps.add(fakes.battery(100 + cid))
+                    conns.add(Connection(cid, 100 + cid))
+                    device_ids.add(100 + cid)
         api = fakes.FakeApi(comps, conns)
         with fakes.connection(fakes.build_graph(comps, conns), api):
             registry = ChannelRegistry(name="c19")
             sub_chan: Any = Broadcast(name="c19-sub")
             sub_rx = sub_chan.new_receiver(limit=10000)
-            engine = PVPowerFormula("ns", registry, sub_chan.new_sender(),
-                                    FormulaGeneratorConfig(component_ids=None, allow_fallback=True)).generate()
+            gen_cls = {"pv": PVPowerFormula, "ev": EVChargerPowerFormula, "battery": BatteryPowerFormula}[family]
+            engine = gen_cls("ns", registry, sub_chan.new_sender(),
+                             FormulaGeneratorConfig(component_ids=None if family == "pv" else device_ids,
+                                                    allow_fallback=True)).generate()
             info["formula"] = str(engine)
             out_rx = engine.new_receiver(max_size=10000)
             await world.settle(2)
@@ -261,6 +282,7 @@ def run_case(case: Any, pid: str) -> Verdict:
         v.labels.add("primary_closed")
     if nterms == 2:
         v.labels.add("two_terms")
+    v.labels.add("family_" + case.get("family", "pv"))
     if any(s is not None for s in started):
         v.labels.add("fallback_started")
     v.nontrivial = bool(v.labels & {"fail_recover_fail", "fallback_lag", "primary_closed"})
